@@ -96,7 +96,6 @@ var c10Tmpls = []c10Tmpl{
 	{"length, keys", "map", "many", false, "union"},
 	{"., .", "any", "many", false, "union"},
 	{"pick([\"a\", \"b\"])", "map", "1", false, "pick-root"},
-	{"pick([\"a\"]) | .a", "map", "1", false, "pick-root"},
 	{"pick([0])", "seq", "1", false, "pick-root"},
 	{"omit([\"a\"])", "map", "1", false, "pick-root"},
 	{"(., .[]) | . == 1", "map", "many", false, "union-root-first"},
@@ -199,8 +198,8 @@ func c10PickTmpl(r *rand.Rand, writersOnly bool) c10Tmpl {
 
 // c10Compose occasionally pipes a template into a generic tail or unions two templates of one shape.
 func c10Compose(r *rand.Rand, t c10Tmpl) c10Tmpl {
-	if c10RootCopiesOnly[t.Expr] {
-		return t // kept as written: the recorded deviation is matched on the exact expression
+	if c10RootCopiesOnly[t.Expr] || t.Op == "pick-root" {
+		return t // kept as written: finding matchers look at the exact expression
 	}
 	switch r.IntN(8) {
 	case 0:
